@@ -203,11 +203,7 @@ Theorem C18_window_machines_keep_source : forall A B,
   /\ (forall k, never_unsubs (x_window_boundaries (A:=A) (B:=B)) k)
   /\ (forall mapper, never_unsubs (x_window_when (A:=A) (B:=B) mapper) 0%nat)
   /\ (forall mapper, never_unsubs (x_window_toggle (A:=A) (B:=B) mapper) 0%nat).
-Proof.
-  intros A B. exact (conj (@window_count_never_unsubs A B) (conj (@window_time_never_unsubs A B)
-    (conj (@window_time_or_count_never_unsubs A B) (conj (@window_boundaries_never_unsubs A B)
-    (conj (@window_when_never_unsubs_source A B) (@window_toggle_never_unsubs_source A B)))))).
-Qed.
+Proof. exact @window_machines_keep_source. Qed.
 (* nothing reaches the subscriber on the outer after it ended *)
 Theorem C18_outer_silent_after_end : forall A W B (imm : nat -> bool) (m : machine A W B) ins s r k,
   r_outer r = false -> forall x, In x (fst (run_from imm m s r k ins)) -> outer_obs (snd x) = false.
